@@ -13,7 +13,7 @@ pub static PROP: Prop = Prop {
     id: "C11",
     title: "Imperative editing of lax diagrams refines a plain list model",
     check,
-    max_tape: (260, 700),
+    max_tape: (700, 1400),
     cases: (60_000, 1_000_000),
     both_profiles: false,
     rule: "histories of up to 25 (thorough 80) builder calls (new_node, new_edge, new_operation, add_edge_source/target, unify, delete_nodes, delete_edges, map/with nodes/edges, interface assignment) with valid, duplicated and out-of-range identifiers for the deletions, starting from the empty diagram, a singleton or a generated diagram; the model replays each step with Vec operations and all public fields are compared after every step; serde round trip and JSON shape at the end; non-trivial = the history contains a node deletion after an edit that created references (incidence, interface or pending pair) to a deleted node; distinct = hash of the start diagram and the history",
@@ -106,7 +106,7 @@ fn check(t: &mut Tape, ctx: &mut Ctx) -> CheckResult {
     for step in 1..=steps {
         let n = m.d.nodes.len();
         let ne = m.d.edges.len();
-        let op = t.weighted(&[4, 3, 2, 2, 2, 3, 3, 2, 1, 1, 2]);
+        let op = t.weighted(&[4, 3, 2, 2, 2, 3, 3, 2, 1, 1, 2, 1]);
         match op {
             0 => {
                 let l = t.choice(al.nl) as u32;
@@ -306,6 +306,27 @@ fn check(t: &mut Tape, ctx: &mut Ctx) -> CheckResult {
                     m.d.t = v.clone();
                     hist.push_str(&format!(" targets={:?}", v));
                 }
+            }
+            11 => {
+                // bulk growth: many nodes and hyperedges at once, so that later deletions and
+                // relabellings work on lists of 30-100 items
+                let kn = t.range(8, 40);
+                let ke = t.range(8, 64);
+                for _ in 0..kn {
+                    let l = t.choice(al.nl) as u32;
+                    f.new_node(Ob(l));
+                    m.d.nodes.push(l);
+                }
+                let n2 = m.d.nodes.len();
+                for _ in 0..ke {
+                    let l = t.choice(al.el) as u32;
+                    let src: Vec<usize> = (0..t.choice(3)).map(|_| t.choice(n2)).collect();
+                    let tgt: Vec<usize> = (0..t.choice(3)).map(|_| t.choice(n2)).collect();
+                    f.new_edge(Op(l), (ids(&src), ids(&tgt)));
+                    m.d.edges.push(Edge { label: l, src, tgt });
+                }
+                hist.push_str(&format!(" bulk(+{kn} nodes, +{ke} edges)"));
+                ctx.class("bulk-growth");
             }
             _ => {
                 // hypergraph-level builder calls go through the same code; exercise them directly
